@@ -64,6 +64,7 @@ type Do struct {
 type stepBind struct {
 	sym    slip.Symbol
 	step   slip.Object
+	noStep bool
 	result slip.Object
 }
 
@@ -102,10 +103,14 @@ func (f *Do) Call(s *slip.Scope, args slip.List, depth int) (result slip.Object)
 			}
 		}
 		for _, sb := range steps {
-			sb.result = ns.Eval(sb.step, d2)
+			if !sb.noStep {
+				sb.result = ns.Eval(sb.step, d2)
+			}
 		}
 		for _, sb := range steps {
-			ns.UnsafeLet(sb.sym, sb.result)
+			if !sb.noStep {
+				ns.UnsafeLet(sb.sym, sb.result)
+			}
 		}
 	}
 	return
@@ -123,7 +128,7 @@ func setupDo(s, ns *slip.Scope, args slip.List, depth int) (steps []*stepBind, t
 		switch tb := binding.(type) {
 		case slip.Symbol:
 			ns.Let(tb, nil)
-			steps[i] = &stepBind{sym: slip.Symbol(strings.ToLower(string(tb)))}
+			steps[i] = &stepBind{sym: slip.Symbol(strings.ToLower(string(tb))), noStep: true}
 		case slip.List:
 			if len(tb) < 1 {
 				slip.TypePanic(s, depth, "do binding", nil, "list", "symbol")
@@ -133,7 +138,7 @@ func setupDo(s, ns *slip.Scope, args slip.List, depth int) (steps []*stepBind, t
 				slip.TypePanic(s, depth, "do binding", tb[0], "symbol")
 			}
 			sym = slip.Symbol(strings.ToLower(string(sym)))
-			sb := stepBind{sym: sym}
+			sb := stepBind{sym: sym, noStep: len(tb) < 3}
 			steps[i] = &sb
 			if 1 < len(tb) {
 				// Use the original scope to avoid using the new bindings since
